@@ -589,6 +589,19 @@ func oracle(sc *Scenario, r *Result) (fails []string, legal bool) {
 			nfaultAll[ev.ID]++
 		}
 	}
+	// events of phase-two calls that were routed to a process that does not hold the connection
+	awayWin := map[int]bool{}
+	awayT := map[int]bool{}
+	for j, op := range sc.Ops {
+		if op.K == "away" {
+			awayT[op.Target] = true
+		}
+		if op.K == "p2" && awayT[op.Target] && j < len(r.Ops) {
+			for k := r.Ops[j].EvFrom; k < r.Ops[j].EvTo; k++ {
+				awayWin[k] = true
+			}
+		}
+	}
 	onConn := map[int]string{} // session -> identifier of the branch bound to it
 	boundTo := map[string]int{} // identifier -> session it is bound to (0: detached / none)
 	state := map[string]int{} // 0 none, 1 active, 2 idle, 3 prepared, 4 committed, 5 rolled back
@@ -637,7 +650,7 @@ func oracle(sc *Scenario, r *Result) (fails []string, legal bool) {
 				if ev.Cmd == "ROLLBACK" && ev.Res == "nota" && (state[id] == 0 || state[id] == 5) {
 					continue // nothing to roll back: never started / already rolled back (reading in docs/C17.md)
 				}
-				if (ev.Cmd == "COMMIT" || ev.Cmd == "ROLLBACK") && ev.Res == "nota" && state[id] == 3 && boundTo[id] != ev.Conn && boundTo[id] != 0 {
+				if (ev.Cmd == "COMMIT" || ev.Cmd == "ROLLBACK") && ev.Res == "nota" && state[id] == 3 && boundTo[id] != ev.Conn && boundTo[id] != 0 && awayWin[i] {
 					// a process that does not hold the session: on this server family the branch is only
 					// visible to the session that prepared it; nothing changed, the answer must say so (checked per op)
 					continue
